@@ -437,4 +437,4 @@ LEVEL_TEXT = ('Generated source histories on every storage offering iterator() a
               'source by the full query battery, damaged runs by prefix-completeness, subset, order and a deterministic '
               'termination bound.')
 LEVEL_NOTE = ('Trusted: the source storage as reference (its correctness is C04), an independent 10-line layout parser for '
-              'transaction byte ranges, the raw-read counter. Blob histories come from C13's blob world and are copied into a FileStorage with blob directory (the only restorable blob destination); fsrecover does not handle blobs.')
+              'transaction byte ranges, the raw-read counter. Blob histories come from the blob world of C13 and are copied into a FileStorage with blob directory (the only restorable blob destination); fsrecover does not handle blobs.')
